@@ -4,7 +4,17 @@
     kind 2: series     (2 results (wa wb wc wd wa') runs conf N (refs-replace refs-combine))
                        run = (how order out sums); sums = (0 ((summary ...) ...)) | (2)
                        refs-x = per series, per cell: (seed stream alone)
-    kind 3: several cells, one AddSummaries call (3 conf N cells)                          *)
+    kind 3: several cells, one AddSummaries call (3 conf N cells)
+    kind 4: ONE builder used incrementally (4 results wf runs conf N refs incs);
+            runs / refs as in kind 2 (fresh builders over the whole set),
+            inc = (how order k out1 sums1 out2 sums2): the first k (result, value)
+            pairs of [order] are added, the series built and summarised (out1
+            sums1), the others added, the series built and summarised again
+            (out2 sums2).  Model: Model/SeriesHist.v (a build leaves the
+            builder's cells reordered at most; Proofs/SeriesHist.v: the second
+            build is that of a fresh builder over all results).
+    Runs of kind 2 may come from files read through Builder.AddFiles (the
+    result set is what the files say; a key a file does not set is empty).      *)
 From Perf Require Import Base.Bytes Base.Sx Base.B64 Base.SxF Base.Usort
      Model.Dates Model.Bootstrap Model.BootstrapSpec Model.Series Model.SeriesSpec.
 Local Open Scope Z_scope.
@@ -333,6 +343,48 @@ Definition series_prop (rs : list res) (runs : list srun) (rf : refs) : bool :=
         && forallb (sums_ok rf) runs
       else true).
 
+(** * one builder used incrementally *)
+Definition sums_t := option (list (list outcome3)).
+Record irun := mkInc { in_combine : bool; in_order : list nat; in_k : nat;
+                       in_out1 : outcomeS; in_sums1 : sums_t; in_out2 : outcomeS; in_sums2 : sums_t }.
+Definition as_inc (s : sx) : option irun :=
+  match s with
+  | SL [h; ord; k; o1; s1; o2; s2] =>
+      do h <- as_bool h; do ord <- as_list as_nat ord; do k <- as_nat k;
+      do o1 <- as_outS o1; do s1 <- as_sums s1; do o2 <- as_outS o2; do s2 <- as_sums s2;
+      Some (mkInc h ord k o1 s1 o2 s2)
+  | _ => None
+  end.
+
+Definition sums_eqb (a b : sums_t) : bool := option_eqb (list_eqb (list_eqb out3_same)) a b.
+Definition some_sums (s : sums_t) : bool := match s with Some _ => true | None => false end.
+
+(** the model of the history (Model/SeriesHist.v): the first build sees the
+    builder of the first k additions, the second the builder of all.  [wf] =
+    [wf_all rs]; a part of a well-formed set is well-formed up to clause b (the
+    baseline hash of a trial is known once its first denominator is added) *)
+Definition inc_corr (wf : bool) (rs : list res) (i : irun) : bool :=
+  let all := permute rs (in_order i) in
+  let pre := permute rs (firstn (in_k i) (in_order i)) in
+  outS_eqb (wf && wf_b pre) (model_out (in_combine i) pre) (outS_canon (in_out1 i))
+  && outS_eqb wf (model_out (in_combine i) all) (outS_canon (in_out2 i)).
+
+(** specification: no panic, samples returned sorted; for a well-formed result
+    set the second build AND its summaries are those of a fresh builder over the
+    identical result set: the declarative series of the set, the observed
+    output and summaries of every fresh run of that policy, and per cell the
+    summary of the cell's multiset summarised alone *)
+Definition inc_prop (wf : bool) (rs : list res) (runs : list srun) (rf : refs) (i : irun) : bool :=
+  not_panic (in_out1 i) && not_panic (in_out2 i) && some_sums (in_sums1 i) && some_sums (in_sums2 i)
+  && raw_sorted (in_out1 i) && raw_sorted (in_out2 i)
+  && (if wf then
+        outS_eqb true (spec_seriesS (in_combine i) rs) (outS_canon (in_out2 i))
+        && forallb (fun r => negb (Bool.eqb (ru_combine r) (in_combine i))
+                             || (outS_eqb true (outS_canon (ru_out r)) (outS_canon (in_out2 i))
+                                 && sums_eqb (ru_sums r) (in_sums2 i))) runs
+        && sums_ok rf (mkRun (in_combine i) (in_order i) (in_out2 i) (in_sums2 i))
+      else true).
+
 (** * dispatch on the case kind *)
 Definition run_case (s : sx) : N :=
   match s with
@@ -361,6 +413,14 @@ Definition run_case (s : sx) : N :=
       | Some rs, Some flags, Some runs, Some n, Some rf =>
           code_of (series_corr rs flags runs (b64_of_bits conf) n rf) (series_prop rs runs rf)
       | _, _, _, _, _ => code_undecodable
+      end
+  | SL [SZ 4; rs; flags; runs; SZ conf; n; rf; incs] =>
+      match as_list as_res rs, as_list as_bool flags, as_list as_run runs, as_nat n, as_refs rf, as_list as_inc incs with
+      | Some rs, Some flags, Some runs, Some n, Some rf, Some incs =>
+          let wf := wf_all rs in
+          code_of (series_corr rs flags runs (b64_of_bits conf) n rf && forallb (inc_corr wf rs) incs)
+                  (series_prop rs runs rf && forallb (inc_prop wf rs runs rf) incs)
+      | _, _, _, _, _, _ => code_undecodable
       end
   | _ => code_undecodable
   end.
